@@ -268,7 +268,25 @@ def translate_fn(self, fi, lean, kind):
     ctx.ret = rty_decl
     ft = FnTr(self, ctx)
     body = fn[4]
-    term, t = ft.seq(list(body[1]), body[2], rty_decl, True)
+    try:
+        term, t = ft.seq(list(body[1]), body[2], rty_decl, True)
+    except (Unsupported, RecursionError) as e_body:
+        # the signature resolved but the body is outside the translated subset: keep a STUB (signature only), so that the
+        # implementation-side harness op of this function survives (no Lean definition, the model answers NOOP)
+        rty_s = rty_decl
+        if ctx.mutself:
+            rty_s = ('struct', owner) if rty_decl == 'unit' else (('except', ('struct', owner)) if (isinstance(rty_decl, tuple) and rty_decl[0] == 'except' and rty_decl[1] == 'unit') else ('tup', (('struct', owner), rty_decl)))
+        if not hasattr(self, 'stubs'):
+            self.stubs = {}
+        self.stubs[lean] = {'lean': lean, 'sig': '', 'body': '', 'ptys': ptys, 'rty': rty_s,
+            'src': f'{fi.file}: {owner or "fn"}::{fn[1]}' + (f' [{kind}]' if kind else ''), 'owner': owner,
+            'name': fn[1], 'kind': kind, 'has_self': has_self, 'mutself': ctx.mutself, 'file': fi.file,
+            'default': getattr(fi, 'is_default', False), 'trait': fi.trait,
+            'rparams': [(p[0][1] if p[0] != 'self' else 'self', p[1]) for p in params],
+            'rret': fn[3], 'pub': bool(fn[7]) if len(fn) > 7 else (fi.trait is not None or not owner),
+            'trait_arg': fi.trait_arg, 'kinds_all': [k.strip() for k in (fi.kinds or generic_kinds(fi) or [])],
+            'generics': generic_names(fi), 'kbits': ctx.uses_kbits, 'notes': [], 'stub': True, 'reason': str(e_body)[:200]}
+        raise
     # result type
     if ctx.mutself:
         if rty_decl == 'unit':
